@@ -70,6 +70,8 @@ var (
 	mode     int32
 	steps    int64
 	budget   int64
+	softAt   int64 // solo pass: the running operation is "expensive" beyond this step count
+	softHit  bool
 	aborting bool
 
 	turn   int32
@@ -354,6 +356,9 @@ func Yield(site int) {
 		panic(Abort{})
 	}
 	if m == ModeSolo {
+		if steps > softAt {
+			softHit = true
+		}
 		return
 	}
 	me := cur
@@ -575,7 +580,25 @@ func Stray() int64 { return stray }
 // before the run is unwound (solo pass: one budget per operation).
 //
 //go:norace
-func SetOpBudget(n int64) { budget = steps + n; aborting = false }
+func SetOpBudget(n int64) { budget = steps + n; aborting = false; softAt = 1 << 62; softHit = false }
+
+// SetOpBudgets is SetOpBudget with a soft limit as well: an operation that
+// passes it is merely flagged (SoftExceeded) and allowed to finish, so that an
+// expensive but terminating call is never unwound out of library code.
+//
+//go:norace
+func SetOpBudgets(soft, hard int64) {
+	budget = steps + hard
+	softAt = steps + soft
+	softHit = false
+	aborting = false
+}
+
+// SoftExceeded reports whether the operation running since the last
+// SetOpBudgets call passed its soft limit.
+//
+//go:norace
+func SoftExceeded() bool { return softHit }
 
 // Charge advances the logical clock by n without being a yield point: the
 // driver charges for its own per-callback and per-byte work so that step
